@@ -39,7 +39,7 @@ PROBES = ["split_remainder_nonzero", "insufficient_funds_refused", "less_than_on
           "cache_roundtrip_bytes", "torn_cache_file_read", "provider_lookup_cached", "observed_stuck_after_heal",
           "observed_txdb_returned_unrequested_tx", "spendable_form_text", "spendable_form_dict", "display_roundtrip",
           "attach_unspents", "fee_after_in_place_edit", "validate_against_unfiltered_source", "validate_against_plain_dict",
-          "validate_refused_colluding_source", "attach_left_unknown", "build_by_hand_distribute_from_split_pool", "build_create_signed_tx", "build_args_are_generators", "fee_with_unpaired_unspents_refused"]
+          "validate_refused_colluding_source", "attach_left_unknown", "build_by_hand_distribute_from_split_pool", "build_create_signed_tx", "build_args_are_generators", "fee_with_unpaired_unspents_refused", "attach_in_place"]
 
 CACHE = "/wallet/cache"
 
@@ -157,7 +157,11 @@ def gen_plan(rng, tier, index, config=None):
                           "i": r.bits(8), "delta": r.pick([1, -1, 7, 1000, -1000, 30000])})
         elif op == "attach":
             steps.append({"op": "attach", "tx": "x%d" % r.below(nbuilt), "ignore_missing": r.chance(0.4),
-                          "db": r.weighted([("txdb", 4), ("raw_stale", 1 if faulty else 0)])})
+                          "db": r.weighted([("txdb", 4), ("raw_stale", 1 if faulty else 0)]), "inplace": r.chance(0.3)})
+            if steps[-1]["inplace"] and r.chance(0.6):
+                # ... and then goes on working with that transaction: a record corrected in place, validated again
+                steps.append({"op": "edit", "tx": steps[-1]["tx"], "how": "unspent_value_inplace", "i": r.bits(8), "delta": r.pick([1, -1, 1000])})
+                steps.append({"op": "validate", "tx": steps[-1]["tx"], "db": r.pick(["txdb", "raw", "dict"])})
         elif op == "fetch":
             steps.append({"op": "fetch", "tx": "t%d" % r.below(ntx)} if r.chance(0.9) else {"op": "fetch", "hash": r.bytes(32).hex()})
         elif op == "put":
@@ -820,6 +824,27 @@ def _op_attach(ctx, W, st):
     if ent is None or W.db is None:
         return
     tx, rec, outs = ent
+    if st.get("inplace") and st.get("db", "txdb") == "txdb" and not st.get("ignore_missing"):
+        # the wallet reloads the spent outputs of the very transaction it keeps working with (not of a copy)
+        truth_ = [_truth(W, h, i) for _, _, h, i in rec]
+        try:
+            tx.unspents_from_db(W.db)
+        except Exception as e:
+            ctx.obs("attach-inplace", "raised", type(e).__name__)
+            return
+        got_ = [(u.coin_value, bytes(u.script)) for u in tx.unspents]
+        ctx.obs("attach-inplace", [g[0] for g in got_])
+        ctx.probe("attach_in_place")
+        if any(t is None for t in truth_):
+            ctx.violate("C13", "unspents-from-db-invented-output", {"inplace": True})
+        elif got_ != truth_:
+            ctx.violate("C13", "unspents-from-db-wrong-output", {"inplace": True, "got": [g[0] for g in got_], "truth": [t[0] for t in truth_]})
+        else:
+            # the records now say what the ledger says
+            rec = [(t[0], t[1], h, i) for t, (_, _, h, i) in zip(truth_, rec)]
+            _own_hash_order(tx)
+            W.built[st["tx"]] = (tx, rec, outs)
+        return
     t2 = copy.deepcopy(tx)
     t2.unspents = []
     ctx.probe("attach_unspents")
